@@ -81,7 +81,9 @@ struct Sheet {
     shared_formula: Option<(u32, u32, u32)>, // (col, first row, last row)
     /// legal oddities of the physical layout, none of which changes what the sheet holds:
     /// 1 = the rows are written last to first, 2 = the last cell is preceded by another cell at
-    /// the same position (the later one wins), 4 = the dimension record names the first row only
+    /// the same position (the later one wins), 4 = the dimension record names the first row only,
+    /// 8 = (xlsx) the `<row>` elements carry no `r` attribute while their cells carry full references,
+    /// 16 = (xlsx) the merged regions are spread over two `<mergeCells>` blocks
     quirk: u8,
 }
 
@@ -94,6 +96,10 @@ fn quirk_of(seed: u64, idx: usize) -> u8 {
         2 => 4,
         3 => 1 | 4,
         4 => 1 | 2,
+        5 => 8,
+        6 => 8 | 1,
+        7 => 16,
+        8 => 16 | 4,
         _ => 0,
     }
 }
@@ -225,6 +231,8 @@ fn sheet_xml(s: &Sheet) -> String {
                 next_row += 1;
             }
             x.push_str("<row>");
+        } else if s.quirk & 8 != 0 {
+            x.push_str("<row>");
         } else {
             x.push_str(&format!("<row r=\"{}\">", r + 1));
         }
@@ -272,6 +280,12 @@ fn sheet_xml(s: &Sheet) -> String {
             x.push_str(&format!("<mergeCell ref=\"{}:{}\"/>", a1(*r1, *c1), a1(*r2, *c2)));
         }
         x.push_str("</mergeCells>");
+    }
+    if s.quirk & 16 != 0 {
+        if s.merges.is_empty() {
+            x.push_str(&format!("<mergeCells count=\"1\"><mergeCell ref=\"{}:{}\"/></mergeCells>", a1(rmin, cmax + 2), a1(rmin + 1, cmax + 2)));
+        }
+        x.push_str(&format!("<mergeCells count=\"1\"><mergeCell ref=\"{}:{}\"/></mergeCells>", a1(rmax + 2, cmin), a1(rmax + 2, cmin + 1)));
     }
     x.push_str("</worksheet>");
     x
